@@ -4,6 +4,8 @@
   comparison functions of 8.8.3.2; case analysis of handleCachable.
 -/
 import LtVerif.Model.Cond304
+set_option linter.unusedSimpArgs false
+set_option linter.unusedVariables false
 namespace LtVerif
 namespace Cond
 open B Date
@@ -132,7 +134,7 @@ theorem drop_quoted (x R : Bytes) : (34 :: (x ++ 34 :: R)).drop (34 :: (x ++ [34
     intro y
     induction y with
     | nil => rfl
-    | cons a ys ih => simpa [List.drop_succ_cons] using ih
+    | cons a ys ih => simp [List.drop_succ_cons, ih]
   have hl : (34 :: (x ++ [34])).length = (x.length + 1) + 1 := by simp
   rw [hl, List.drop_succ_cons]
   exact h x
